@@ -247,23 +247,26 @@ void vf_harness(void) { int k; HashMap_index(k); VF_CANARY(); }
 hm_find = Unit(
     'HashMap_find', 'C02',
     cuts=[Cut('find', HM, r'^\tT\* find\(const K& key\)\s*$', rules=HM_RULES, post=[CH_ANCHOR]),
-          Cut('has', HM, r'^\tbool has\(const K& key\) const\s*$', rules=HM_RULES)],
+          Cut('has', HM, r'^\tbool has\(const K& key\) const\s*$', rules=HM_RULES, post=[CH_ANCHOR])],
     text=PRE + CHAIN + r"""
-static bool HashMap_has(int key) @@has@@
+static int* HashMap_find_body(int key) @@find@@
+static bool HashMap_has_body(int key) @@has@@
 bool g_has;
 int* HashMap_find(int key)
 CHAIN_REQ
+/* lookups find precisely the keys present: find() returns the value of the node with that key or NULL, has() says whether there is one; nothing is changed */
 __CPROVER_ensures(J >= 0 ? __CPROVER_return_value == &NODE(J)->value : __CPROVER_return_value == (int*)0)
 __CPROVER_ensures(g_has == (J >= 0))
-__CPROVER_assigns(*vf_bucket, g_n0->next, g_n1->next, g_n2->next, g_has)
-{ int* vf_r; { @@find@@ }
-}
+__CPROVER_ensures(*vf_bucket == __CPROVER_old(*vf_bucket) && *vf_n == __CPROVER_old(*vf_n))
+__CPROVER_ensures((g_L >= 1 ==> g_n0->next == __CPROVER_old(g_n0->next)) && (g_L >= 2 ==> g_n1->next == __CPROVER_old(g_n1->next)) && (g_L >= 3 ==> g_n2->next == __CPROVER_old(g_n2->next)))
+__CPROVER_assigns(*vf_bucket, g_n0->next, g_n1->next, g_n2->next, g_has)   /* (the links only because of the R16 anchor assignments; the postcondition shows them unchanged) */
+{ g_has = HashMap_has_body(key); return HashMap_find_body(key); }
 void vf_harness(void) { int k; HashMap_find(k); VF_CANARY(); }
 """,
-    entry='HashMap_find', kind='bounded', bound='one bucket chain of 0..3 colliding nodes', unwind=6,
-    desc='HashMap::find / has on a bucket chain: finds precisely the keys present', functions=['HashMap::find', 'HashMap::has'],
+    entry='HashMap_find', kind='bounded', bound='one bucket chain of 0..3 colliding nodes; keys symbolic', unwind=6,
+    desc='HashMap::find / has on a bucket chain: find precisely the keys present (also behind colliding keys), change nothing', functions=['HashMap::find', 'HashMap::has'],
 )
-UNITS += [map_eq, hm_remove, hm_index]
+UNITS += [map_eq, hm_remove, hm_index, hm_find]
 
 # ---- HashMap::rehash: where a moved entry is put is where lookups will search for it afterwards
 rehash_bin = Unit(
@@ -294,3 +297,61 @@ void vf_harness(void) {
     functions=['HashMap::rehash (placement)', 'HashMap::binOf'],
 )
 UNITS += [rehash_bin]
+
+# ---- HashMap::operator== and Set::operator== : equality by lookup.  The enumeration of *this is abstracted by its contract (visits the g_lenA entries
+# (KEY(i), VAL(i)) once each, in any order), the other container by a ghost finite map B (find/has answer from it, consistently per key).
+# Decided here: the result is exactly  |A| == |B|  and  every entry of A is in B with an equal value.  (With |A| == |B| and distinct keys this is A == B as
+# finite maps - pigeonhole, paper step.)  The answer cannot depend on enumeration order or table size: neither occurs in the contract.
+EQ_DEFS = r'''
+#define NA 3
+int g_lenA, g_lenB; int g_key[NA], g_val[NA]; bool g_bhas[NA]; int g_bval[NA]; int g_finds;
+#define KEY(i) (__CPROVER_assert(0 <= (i) && (i) < g_lenA, "enumerator dereferenced only while valid"), g_key[i])
+#define VAL(i) (__CPROVER_assert(0 <= (i) && (i) < g_lenA, "enumerator dereferenced only while valid"), g_val[i])
+/* b.find(k) / s.has(k) for a key of A: the ghost map B answers (the same for equal keys: required below) */
+static const int* B_FIND(int k) { g_finds++; for (int i = 0; i < NA; i++) if (i < g_lenA && g_key[i] == k) return g_bhas[i] ? &g_bval[i] : (const int*)0; __CPROVER_assert(0, "find is only asked for keys of A"); return 0; }
+static bool B_HAS(int k) { return B_FIND(k) != 0; }
+#define IN_B(i) ((i) >= g_lenA || (g_bhas[i] && (!WITH_VALUES || g_bval[i] == g_val[i])))
+#define EQ_REQ __CPROVER_requires(0 <= g_lenA && g_lenA <= NA && 0 <= g_lenB && g_lenB <= 1000000 && g_finds == 0) \
+   __CPROVER_requires(g_key[0] != g_key[1] && g_key[0] != g_key[2] && g_key[1] != g_key[2])     /* keys of a map are distinct */
+'''
+hm_eq = Unit(
+    'HashMap_eq', 'C02',
+    cuts=[Cut('eq', HM, r'^\tbool operator==\(const HashMap& b\) const\s*$',
+              rules=[(r'(?<![\w.>])length\(\) != b\.length\(\)', 'g_lenA != g_lenB', 1),
+                     (r'for \(Enumerator e1\(this->all\(\)\); e1; \+\+e1\)', 'for (int e1 = 0; e1 < g_lenA; ++e1)', 1),
+                     (r'const T\* p = b\.find\(~e1\);', 'const int* p = B_FIND(KEY(e1));', 1), (r'\*e1 != \*p', 'VAL(e1) != *p', 1)])],
+    text=PRE + '#define WITH_VALUES 1\n' + EQ_DEFS + r'''
+bool HashMap_eq(void)
+EQ_REQ
+__CPROVER_ensures(__CPROVER_return_value == (g_lenA == g_lenB && IN_B(0) && IN_B(1) && IN_B(2)))
+__CPROVER_assigns(g_finds)
+@@eq@@
+void vf_harness(void) { HashMap_eq(); VF_CANARY(); }
+''',
+    entry='HashMap_eq', kind='bounded', bound='this map has at most 3 entries (keys and values symbolic); the other map is any finite map', unwind=6,
+    desc='HashMap::operator==: true exactly when the lengths agree and every entry of *this is found in b with an equal value; no dependence on enumeration order, collisions or table size',
+    functions=['HashMap::operator=='],
+    trusted=['Enumerator over *this visits each entry exactly once (its contract); b.find answers as the finite map b (unit HashMap_find for one bucket chain)'],
+    planted=[('eq', r'!p \|\| ', '')],
+)
+SET = 'include/asl/Set.h'
+set_eq = Unit(
+    'Set_eq', 'C02',
+    cuts=[Cut('eq', SET, r'^\tbool operator==\(const Set& s\) const\s*$',
+              rules=[(r'this->length\(\) != s\.length\(\)', 'g_lenA != g_lenB', 1),
+                     (r'for\(Enumerator e1 = this->all\(\); e1; \+\+e1\)', 'for (int e1 = 0; e1 < g_lenA; ++e1)', 1),
+                     (r's\.has\(\*e1\)', 'B_HAS(KEY(e1))', 1)])],
+    text=PRE + '#define WITH_VALUES 0\n' + EQ_DEFS + r'''
+bool Set_eq(void)
+EQ_REQ
+__CPROVER_ensures(__CPROVER_return_value == (g_lenA == g_lenB && IN_B(0) && IN_B(1) && IN_B(2)))
+__CPROVER_assigns(g_finds)
+@@eq@@
+void vf_harness(void) { Set_eq(); VF_CANARY(); }
+''',
+    entry='Set_eq', kind='bounded', bound='this set has at most 3 members; the other set is any finite set', unwind=6,
+    desc='Set::operator==: true exactly when the sizes agree and every member of *this is in s; no dependence on insertion order',
+    functions=['Set::operator=='],
+    trusted=['Enumerator over *this visits each member exactly once; s.has answers as the finite set s'],
+)
+UNITS += [hm_eq, set_eq]
